@@ -722,6 +722,13 @@ func protoFieldNumbers(c *Ctx, prop string) {
 			c.Diverge(prop, "proto.Unmarshal(Marshal(v))(field numbers around the powers of two)", fmt.Sprintf("%+v", v.Interface()), fmt.Sprintf("%+v err=%v %s", out.Elem().Interface(), err, p), "", k)
 		}
 	}
+	// every number up to 4100 alone (a table of any size a decoder may index fields by ends somewhere), then every 257th
+	for n := 1; n <= 65535; n++ {
+		if n > 4100 && n%257 != 0 {
+			continue
+		}
+		check([]int{n}, 0)
+	}
 	for ki := range kinds {
 		check(nums, ki)
 		for _, n := range nums {
